@@ -73,7 +73,14 @@ impl<Stream: Read + Write> HandshakeMachine<Stream> {
             HandshakeState::Writing(mut buf) => {
                 assert!(buf.has_remaining());
                 if let Some(size) = self.stream.write(Buf::chunk(&buf)).no_block()? {
-                    assert!(size > 0);
+                    if size == 0 {
+                        // A zero-length write is allowed by the `Write` contract and means
+                        // the peer is gone; report it like `FrameCodec::write_out_buffer` does.
+                        return Err(Error::Io(std::io::Error::new(
+                            std::io::ErrorKind::ConnectionReset,
+                            "Connection reset while sending",
+                        )));
+                    }
                     buf.advance(size);
                     Ok(if buf.has_remaining() {
                         RoundResult::Incomplete(HandshakeMachine {
